@@ -586,3 +586,51 @@ theorem cotreeAssign_valid (t0 : Tree) (x : List Bool) (h : Heap) :
     · subst e3; cases thr2 <;> simp [Outcome.ofHeap, Tree.ok_full _ _ _ _ (reservedOf_ne_zero _)]
 
 end PPLV.Alloc
+
+namespace PPLV.Alloc
+
+/-- Repaired insertion: no leak, no bad free, and the receiver is a valid tree after a failed copy. -/
+theorem cotreeInsert_clean {base L h} (m : Nat) (hm : m ≠ 0) (t : Tracks base L [] h) :
+    Clean L (cotreeInsert (buildTree m h).1 (buildTree m h).2) ∧
+    (cotreeInsert (buildTree m h).1 (buildTree m h).2).valid = true := by
+  rcases buildTree_spec m t with ⟨h0, _⟩ | ⟨_, bi, bd, es, e1, t1, nd, hes, hne⟩
+  · exact absurd h0 hm
+  · -- the number of elements of the built tree
+    have hlen : es.length = m := by
+      have := takeN_spec (base := base) (L := L) m [] [h.take.2.take.1, h.take.1] h.take.2.take.2
+        ((t.take.1.take).1)
+      obtain ⟨new, e2, _, _, _, len⟩ := this
+      have : (buildTree m h).1.elems = (takeN m [] h.take.2.take.2).1 := by simp [buildTree, hm]
+      rw [e1] at this; simp at this e2; rw [this, e2]; exact len
+    rw [e1]
+    generalize (buildTree m h).2 = g at t1
+    unfold cotreeInsert
+    split
+    · rename_i h1 ha
+      refine ⟨Clean.of (cotDestroy_full (t1.alloc_none ha) nd hes (by simp) (by simp) hne (reservedOf_ne_zero _)) _ _, ?_⟩
+      simp [Outcome.ofHeap, Tree.ok, reservedOf_ne_zero, hlen]
+    · rename_i b h1 ha
+      obtain ⟨t2, hb, _⟩ := t1.alloc_some ha
+      simp only [List.mem_append, List.mem_cons, List.not_mem_nil, or_false, not_or] at hb
+      refine ⟨Clean.of (cotDestroy_full (es := es ++ [b]) (sz := m + 1) (c := some bi) (t2.congr ?_) ?_ ?_ (by simp) (by simp) hne (reservedOf_ne_zero _)) _ _, ?_⟩
+      · intro c; simp only [List.mem_append, List.mem_cons, List.not_mem_nil, or_false]
+        constructor
+        · rintro (h3 | h3 | h3 | h3)
+          · exact Or.inl (Or.inr h3)
+          · exact Or.inl (Or.inl h3)
+          · exact Or.inr (Or.inl h3)
+          · exact Or.inr (Or.inr h3)
+        · rintro ((h3 | h3) | h3 | h3)
+          · exact Or.inr (Or.inl h3)
+          · exact Or.inl h3
+          · exact Or.inr (Or.inr (Or.inl h3))
+          · exact Or.inr (Or.inr (Or.inr h3))
+      · rw [List.nodup_append]
+        exact ⟨nd, by simp, by intro a ha' c hc; simp at hc; subst hc; intro e'; subst e'; exact hb.1 ha'⟩
+      · intro c hc
+        rcases List.mem_append.mp hc with h3 | h3
+        · exact hes c h3
+        · simp at h3; subst h3; exact ⟨hb.2.2, hb.2.1, by simp⟩
+      · simp [Outcome.ofHeap, Tree.ok, reservedOf_ne_zero, hlen]
+
+end PPLV.Alloc
